@@ -127,8 +127,11 @@ func (st *verifC03Store) pick(name string, kind int, same func(o *verifC03Obj) b
 			verifAssume(!same(st.objs[i])) // an inserted key is answered with its own entry
 		}
 	}
-	if !same(st.objs[hit]) {
-		st.collided = true // absent key, equal 24-bit hash: the index answers with another key's entry
+	// absent key with equal 24-bit hash: the index answers with another key's entry
+	coll := !same(st.objs[hit])
+	verifKnownFinding("C03-S1-index-answer-unchecked", coll)
+	if coll {
+		st.collided = true
 	}
 	return hit
 }
